@@ -9,7 +9,9 @@ def tasks(run):
             for (name, seed) in models.programs(run.seed + 1, 11)]
     out += [('program', (name, seed, {'dimension_reduction_heuristic': 'trace'})) for (name, seed) in models.programs(run.seed + 2, 11)]
     # every variant of the LMI template: symmetric as written or not, non-binding function LMI or not, binding LMI on the problem / on the function
-    out += [('program', ('T_user_lmi', v, {})) for v in range(8)]
+    out += [('program', ('T_user_lmi', v, {})) for v in range(16)]
+    # the same Constraint / PSDMatrix object registered twice: each registration is sent, and the exposed multipliers still certify the bound
+    out += [('program', ('T_duplicates', v, {})) for v in range(4)]
     return out
 
 
